@@ -271,6 +271,30 @@ theorem global_shadow_witness :
     WF witnessGlobalShadow = true ∧ goto witnessGlobalShadow 5 = [2] ∧
     varOf witnessGlobalShadow 5 = 0 ∧ varOf witnessGlobalShadow 2 = 1 := by decide
 
+open Kind Role in
+/-- `a = 0` / `class K:` / `    a = 0` / `    g = lambda b=a: b`: the default value is evaluated in the
+class body and reads `K.a`; jedi looks it up from the lambda's own context (limited to the lambda's
+start, so the lambda itself offers nothing), whose parent context skips the class: it lands on the
+module's `a` -/
+def witnessLambdaDefaultInClass : Prog :=
+  { scopes := [⟨module, 0⟩, ⟨klass, 0⟩, ⟨lambda, 1⟩],
+    occs := [⟨0, bind, 0, 0⟩, ⟨1, defName, 0, 1⟩, ⟨0, bind, 1, 2⟩, ⟨2, bind, 1, 3⟩,
+             ⟨3, param, 2, 4⟩, ⟨0, dfltUse, 2, 4⟩, ⟨3, use, 2, 6⟩] }
+
+theorem lambda_default_in_class_witness :
+    WF witnessLambdaDefaultInClass = true ∧ goto witnessLambdaDefaultInClass 5 = [0] ∧
+    varOf witnessLambdaDefaultInClass 5 = 1 ∧ varOf witnessLambdaDefaultInClass 0 = 0 := by decide
+
+open Kind Role in
+/-- outside a class body the same lookup is right about the VARIABLE although it may land on a later
+assignment (no position limit once the lambda's own context is left):
+`a = 0` / `g = lambda b=a: b` / `a = 0` lands on the last line -/
+theorem lambda_default_sees_later_binding :
+    let p : Prog := { scopes := [⟨module, 0⟩, ⟨lambda, 0⟩],
+                      occs := [⟨0, bind, 0, 0⟩, ⟨2, bind, 0, 1⟩, ⟨3, param, 1, 2⟩, ⟨0, dfltUse, 1, 2⟩,
+                               ⟨3, use, 1, 4⟩, ⟨0, bind, 0, 5⟩] }
+    WF p = true ∧ goto p 3 = [5] ∧ varOf p 3 = varOf p 5 := by decide
+
 /-- the four witness programs above are exactly outside the hypothesis -/
 theorem witnesses_not_covered :
     CoveredUse witnessCompInClass 3 = false ∧ CoveredUse witnessNestedClass 4 = false ∧
